@@ -28,6 +28,30 @@ ACTIONS = ["New", "Start", "WithMdl", "WithName", "MapWith", "WithCompletion", "
            "CompleteWith", "CompleteWithResult", "Drop", "DropWhilePanicking"]
 
 
+BLOCKS_TARGET = os.path.join(vlib.HARNESS, "target", "blocks")
+
+
+def build_blocks(ctx):
+    """The same harness once more with the fixtures that put #[emit::span] on block expressions
+    (spec constant Carriers, "block").  They need the unstable features stmt_expr_attributes +
+    proc_macro_hygiene: RUSTC_BOOTSTRAP=<crate name> switches them on for that one crate on the
+    stable toolchain; a target dir of its own keeps the env change from invalidating the shared one."""
+    import subprocess
+    import time
+    vlib.prepare_harness()
+    env = vlib.cargo_env()
+    env["RUSTC_BOOTSTRAP"] = "c05_spanguard"
+    env["CARGO_TARGET_DIR"] = BLOCKS_TARGET
+    t = time.time()
+    p = subprocess.run(["cargo", "build", "--offline", "-j", "6", "-p", "vh_span", "--bin", "c05_spanguard",
+                        "--features", "blocks"], cwd=vlib.HARNESS, stdout=subprocess.PIPE,
+                       stderr=subprocess.STDOUT, text=True, env=env)
+    if p.returncode != 0:
+        raise vlib.ToolError("cargo build of the block-carrier harness failed:\n%s" % p.stdout[-6000:])
+    vlib.log("[cargo] built vh_span/c05_spanguard with the block carrier in %.1fs" % (time.time() - t))
+    return os.path.join(BLOCKS_TARGET, "debug")
+
+
 def _replay(ctx, bindir, cases, label, mode="graph"):
     rep_path = os.path.join(ctx.out, "report-%s.json" % label)
     ctx.run_harness(os.path.join(bindir, "c05_spanguard"), [cases, rep_path, mode])
@@ -60,6 +84,7 @@ def _replay(ctx, bindir, cases, label, mode="graph"):
 
 def run(ctx):
     bindir = ctx.cargo_build("vh_span", bins=["c05_spanguard"])
+    blocks_dir = build_blocks(ctx)
 
     rc = ctx.replay_case()
     if rc is not None:      # --replay: only the stored case
@@ -67,6 +92,8 @@ def run(ctx):
         with open(cases, "w") as f:
             f.write(json.dumps(rc["case"]) + "\n")
         _replay(ctx, bindir, cases, "replay")
+        if "block" in rc["case"].get("carriers", []):
+            _replay(ctx, blocks_dir, cases, "replay-blocks", "blocks")
         if rc["case"]["form"] == "none" and len(rc["case"]["ops"]) <= 5 and rc["case"]["done"]:
             _replay(ctx, bindir, cases, "replay-typed", "typed")
         return
@@ -94,6 +121,11 @@ def run(ctx):
     rep = _replay(ctx, bindir, cases, "graph")
     if rep["cases"] != n:
         raise vlib.ToolError("harness decided %d of %d cases" % (rep["cases"], n))
+    # carrier "block": the same cases through the attribute on block expressions
+    repb = _replay(ctx, blocks_dir, cases, "blocks", "blocks")
+    exb = repb["extra"].get("executions", {})
+    if not exb.get("plain/macro-block") or not exb.get("guard/macro-block") or not exb.get("result/macro-block"):
+        raise vlib.ToolError("block carrier not executed: %s" % exb)
     with open(cases) as f:
         done = 0
         for i, line in enumerate(f):
@@ -150,8 +182,12 @@ def run(ctx):
         "present} x {plain, setup:, ok_lvl+err_lvl, ok_lvl, err_lvl, +err: mapper, err: mapper "
         "alone, guard:} x {sync fn, async fn} with exits return / early "
         "return / ? / panic, and new_span!/new_info_span! with manual guard handling in "
-        "Frame::call and Frame::in_future; the attribute on blocks / async blocks needs unstable "
-        "features (E0658 stmt_expr_attributes / proc_macro_hygiene on rustc 1.95) and is not run",
+        "Frame::call and Frame::in_future; carriers (spec constant Carriers): sync fn, async fn and a sync "
+        "block expression (statement position and value of a let) - the block carrier needs the unstable "
+        "features stmt_expr_attributes + proc_macro_hygiene and is built with RUSTC_BOOTSTRAP scoped to the "
+        "harness crate; the attribute on an ASYNC block is not run: it parses its input as a statement, an "
+        "async block is only a statement with a trailing `;`, i.e. where the future is dropped unpolled "
+        "(as an expression the expansion fails: 'unexpected end of input, expected semicolon')",
         "explicit complete / complete_with made while the thread is unwinding: only the number of "
         "completions, return value, data, extent and ids are part of the verdict; lvl / err are "
         "level B's (the code's) and a difference is reported as MODEL-DRIFT",
